@@ -69,6 +69,9 @@ pub enum Op {
     Probe,
     /// try_from / TryFrom on one given value of the repr (C02 argument sweep of the narrow reprs)
     TryFrom(i128),
+    /// from_str / FromStr on the name of the variant with this sorted index, mutated:
+    /// 0 exact, 1 one char appended, 2 last char dropped, 3 case of the first char flipped
+    FromStr(usize, u8),
 }
 
 #[derive(Clone, Debug, PartialEq, Eq)]
@@ -146,6 +149,7 @@ impl Op {
             Zip(k, m) => format!("Z{},{}", us(*k), m),
             Probe => "P".into(),
             TryFrom(v) => format!("T{}", v),
+            FromStr(i, k) => format!("S{},{}", i, k),
         }
     }
 
@@ -219,6 +223,7 @@ impl Op {
             }
             "P" if t.is_empty() => Some(Probe),
             "T" => t.parse::<i128>().ok().map(TryFrom),
+            "S" => two(t).map(|(a, b)| FromStr(a, b as u8)),
             _ => None,
         }
     }
@@ -269,7 +274,7 @@ impl Op {
     /// may change the cursor of a live handle
     pub fn is_state_changing(&self) -> bool {
         use Op::*;
-        !matches!(self, Len | SizeHint | Zip(..) | Probe | TryFrom(_) | Drop) && !self.is_create()
+        !matches!(self, Len | SizeHint | Zip(..) | Probe | TryFrom(_) | FromStr(..) | Drop) && !self.is_create()
     }
 
     /// numeric arguments, for shrinking
